@@ -23,6 +23,7 @@ from sc3.base.functions import Function, AbstractFunction
 from sc3.base.stream import Routine, Stream, stream
 from sc3.seq.pattern import Pattern
 from sc3.seq.patterns.listpatterns import Pseq
+from sc3.seq.patterns.filterpatterns import Pn
 from sc3.synth.ugen import ChannelList
 from sc3.base.operand import Operand
 from sc3.seq.event import Rest
@@ -60,6 +61,8 @@ def leaf(d, fns):
         return mk_routine([num(i) for i in d[1]])
     if t == 'pat':
         return Pseq([num(i) for i in d[1]])
+    if t == 'pstr':            # an already-made pattern stream (PatternValueStream) yielding varying values
+        return stream(Pseq([num(i) for i in d[1]]))
     if t == 'seq':
         items = [leaf(i, fns) for i in d[2]]
         return {'L': list, 'T': tuple, 'C': ChannelList}[d[1]](items)
@@ -100,6 +103,10 @@ def build(e, fns):
         return apply2(e[1], e[2], build(e[3], fns), build(e[4], fns))
     if t == 'nar':
         return apply3(e[1], e[2], build(e[3], fns), [build(i, fns) for i in e[4]])
+    if t == 'pseq':            # enclosing pattern: the items are EMBEDDED
+        return Pseq([build(i, fns) for i in e[1]], e[2])
+    if t == 'pn':
+        return Pn(build(e[1], fns), e[2])
     raise ValueError(e)
 
 
